@@ -75,6 +75,8 @@ IMPORT = [
 
 def run(ctx):
     F = ctx.F
+    from rules import deadrules as _dr
+    _dr.rule_parsed_fields_used(ctx, "R19.8", ("layout21tetris::conv::proto::",), 10)
     fl = get_flow(F)
     ctx.rule("R19.1e", "tetris -> proto: name, outline x/y, metals, instances (name, cell, location, both reflections), assignments, cuts derive from their counterparts and paired fields are never crossed")
     ctx.rule("R19.1i", "proto -> tetris: the same correspondences in the other direction")
